@@ -102,9 +102,12 @@ func (a *Allocation) AddPermission(perms *Permission) {
 		return
 	}
 
+	// The timer is armed before the permission becomes visible to other goroutines
+	// (expiry, Close): they stop/reset lifetimeTimer and must never find it nil.
 	perms.allocation = a
 	a.permissionsLock.Lock()
 	a.permissions[fingerprint] = perms
+	perms.start(perms.timeout)
 	a.permissionsLock.Unlock()
 
 	if a.eventHandler.OnPermissionCreated != nil {
@@ -114,8 +117,6 @@ func (a *Allocation) AddPermission(perms *Permission) {
 				a.RelayAddr, u.IP)
 		}
 	}
-
-	perms.start(perms.timeout)
 }
 
 // RemovePermission removes the net.Addr's fingerprint from the allocation's permissions.
